@@ -200,10 +200,10 @@ ASSUME Gen = "C28" =>
    kind x position class / inserted record kind), plus byte-stream cases per configuration.
    The demanded outcome is the same everywhere: every endpoint ends in {done, failed}. *)
 Combos32 ==
-  { <<10, 47, "R", 0>>, <<10, 49161, "P", 0>>, <<11, 49172, "R", 4>>, <<12, 156, "R", 0>>, <<12, 49199, "R", 4>>,
+  { <<10, 47, "R", 0>>, <<10, 49161, "P", 0>>, <<11, 49172, "R", 4>>, <<12, 49199, "R", 4>>,
     <<12, 49195, "E", 0>>, <<12, 158, "R", 0>>, <<13, 0, "E", 0>>, <<13, 0, "R", 4>> }
   \cup (IF Tier = "quick" THEN {} ELSE
-        { <<10, 51, "R", 0>>, <<10, 49171, "R", 4>>, <<11, 5, "R", 0>>, <<11, 49161, "P", 4>>, <<12, 49195, "P", 4>>,
+        { <<12, 156, "R", 0>>, <<10, 51, "R", 0>>, <<10, 49171, "R", 4>>, <<11, 5, "R", 0>>, <<11, 49161, "P", 4>>, <<12, 49195, "P", 4>>,
           <<12, 52393, "Q", 0>>, <<12, 49191, "R", 0>>, <<13, 0, "P", 0>>, <<13, 0, "E", 4>> })
 MaxIdx32 == IF Tier = "quick" THEN 7 ELSE 11
 Faults32 ==
@@ -211,7 +211,7 @@ Faults32 ==
   \cup { [kind |-> k, pos |-> p, mask |-> 0, sub |-> ""] : k \in {"trunc", "split", "refrag"}, p \in 0..4 }
   \cup { [kind |-> k, pos |-> 0, mask |-> 0, sub |-> ""] : k \in {"dup", "drop", "close"} }
   \* a cleartext handshake message cut to 0/1/2/3/half/all-but-one bytes, or padded, with consistent framing
-  \cup { [kind |-> k, pos |-> p, mask |-> 0, sub |-> ""] : k \in {"shorten", "lengthen"}, p \in 0..5 }
+  \cup { [kind |-> k, pos |-> p, mask |-> 0, sub |-> ""] : k \in {"shorten", "lengthen", "zeros"}, p \in 0..5 }
   \cup { [kind |-> "garbage", pos |-> 0, mask |-> 0, sub |-> x] : x \in {"keep-header", "all"} }
   \cup { [kind |-> "insert", pos |-> 0, mask |-> 0, sub |-> x] :
            x \in {"junk-handshake", "short-handshake", "huge-handshake", "alert-warning", "alert-fatal", "unknown-type",
